@@ -249,6 +249,8 @@ def make_pool(seed, shard, size=8):
     lids = []
     exts = []
     k = 0
+    _cross_map_pair(seed, shard, docs, types, lids, exts)
+    size += len(docs)
     while len(docs) < size - 2 and k < 60:
         e = entries[(seed * 7 + shard * 3 + k * 5) % len(entries)]
         ch = docgen.RandomChooser(seed * 100003 + shard * 1009 + k)
@@ -313,6 +315,50 @@ def make_pool(seed, shard, size=8):
         lids.append(['2000A', '2300', 'ST_LOOP', '2000'])
         exts.append(['states'])
     return docs, types, lids, exts
+
+
+def _cross_map_pair(seed, shard, docs, types, lids, exts):
+    """two documents of different maps that have loops of the same path, with the same kind of structural defect in a loop of
+    that common path: whatever is remembered per loop or node name in one map must not show in the other"""
+    from .. import faults, mapmodel as mm
+    from . import c02
+    ch = docgen.RandomChooser(seed * 7919 + shard * 31 + 5)
+    icvn = ch.choice(['00401', '00401', '00501'])
+    pool = c02.mixed_pool(icvn)
+    for attempt in range(6):
+        ea = pool[ch.integer(0, len(pool) - 1)]
+        near = [e for e in pool if e['file'] != ea['file'] for _ in range(min(12, c02._common_loops(ea['file'], e['file'])))]
+        if not near:
+            continue
+        eb = near[ch.integer(0, len(near) - 1)]
+        try:
+            da = docgen.build_doc(ea, ch, p_seg=.4, p_loop=.5, max_rep=3, shape=(1, 1, 1), max_segs=200)
+            db = docgen.build_doc(eb, ch, p_seg=.4, p_loop=.5, max_rep=3, shape=(1, 1, 1), max_segs=200)
+        except docgen.GenFail:
+            continue
+        for kind in ['loop-body-removed', 'required-segment-removed', 'loop-over-max', 'segment-over-max']:
+            def by_loop(doc):
+                out = {}
+                for c in faults.candidates(doc, kind):
+                    sg = doc.segs[c[0]]
+                    if sg.chain:
+                        out.setdefault(mm.path(sg.chain[-1][0]), []).append(c)
+                return out
+            ca, cb = by_loop(da), by_loop(db)
+            common = sorted(set(ca) & set(cb))
+            if not common:
+                continue
+            lp = common[ch.integer(0, len(common) - 1)]
+            ra = faults.inject(da, kind, ca[lp][ch.integer(0, len(ca[lp]) - 1)], ch.seed())
+            rb = faults.inject(db, kind, cb[lp][ch.integer(0, len(cb[lp]) - 1)], ch.seed())
+            if ra is None or rb is None:
+                continue
+            for dd, e in ((ra[0], ea), (rb[0], eb)):
+                docs.append(dd.text())
+                types.append(e['file'])
+                lids.append(sorted({l.id for sg in dd.segs for l, n in sg.chain if l.children and l.children[0].kind == 'seg'}))
+                exts.append([])
+            return
 
 
 def _ext_of(doc, loc):
